@@ -142,6 +142,7 @@ Parse(chars) ==
 
 \* sanity where the en-passant square may be given FIDE-style (after every double step)
 SaneFide(pos) ==
+  /\ MaterialOK(pos.board)
   /\ Cardinality(KingSquares(pos.board, White)) = 1
   /\ Cardinality(KingSquares(pos.board, Black)) = 1
   /\ \A s \in (0..7) \cup (56..63) : pos.board[s] \notin {"P", "p"}
